@@ -1,0 +1,19 @@
+//go:build verif
+
+package badger
+
+// Exports for the C02/C03 harness (conflict log of the oracle).
+
+// VerifConflictLog returns the commit timestamps currently held in oracle.committedTxns and
+// oracle.lastCleanupTs (taken under the oracle lock).
+func (db *DB) VerifConflictLog() (ts []uint64, lastCleanupTs uint64) {
+	db.orc.Lock()
+	defer db.orc.Unlock()
+	for _, c := range db.orc.committedTxns {
+		ts = append(ts, c.ts)
+	}
+	return ts, db.orc.lastCleanupTs
+}
+
+// VerifReadMarkDoneUntil returns readMark.DoneUntil() (normal mode read watermark).
+func (db *DB) VerifReadMarkDoneUntil() uint64 { return db.orc.readMark.DoneUntil() }
